@@ -490,6 +490,7 @@ impl Worker {
                 if info.class == "tree" && id == 0 {
                     // an inode the library just created (O_CREAT): register under a fresh id
                     id = register_tracee_fd(self.pid, ret, rec.scratch);
+                    ent.ev["r_new"] = json!(true);
                 }
                 ent.ev["r_class"] = json!(info.class);
                 ent.ev["r_id"] = json!(id);
